@@ -544,6 +544,11 @@ def job_loop(prog, disp):
                 ):
                     cands.append((n, s.targets[0].id))
                     break
+    if len(cands) > 1:
+        # by role: the hand-over loop is the one that makes the task messages (calls farm._put)
+        put = [c for c in cands if any(isinstance(x, ast.Call) and (prog.callee(x, disp) or '').endswith('farm._put') for x in ast.walk(c[0]))]
+        if len(put) == 1:
+            return put[0]
     if len(cands) != 1:
         raise AnalysisError(f'farm.dispatch: the loop over the released batch (_jobs) was not found ({len(cands)} candidates)')
     return cands[0]
@@ -650,3 +655,60 @@ def path_condition(func, node):
 
     find(func.node.body, [])
     return chain
+
+
+def _def_time_problems(fnode, runtime_ctx):
+    """defaults of one `def` that are evaluated once, when the function is defined, although they are not constants:
+    a call, or a read of a dawgie.context setting that is assigned again at run time -> [(default expr, why)]"""
+    out = []
+    a = fnode.args
+    for dv in list(a.defaults) + [x for x in a.kw_defaults if x is not None]:
+        if any(isinstance(x, ast.Call) for x in ast.walk(dv)):
+            out.append((dv, 'is a call evaluated once, when the module is imported'))
+            continue
+        for x in ast.walk(dv):
+            if isinstance(x, ast.Attribute) and isinstance(x.value, (ast.Attribute, ast.Name)) and norm(x.value) in ('dawgie.context', 'context'):
+                if 'dawgie.context.' + x.attr in runtime_ctx:
+                    out.append((dv, f'reads dawgie.context.{x.attr} once, when the module is imported; context.override / the worker entry point assign it later'))
+                    break
+    return out
+
+
+def runtime_context_settings(prog):
+    """dawgie.context settings that have a writer at run time (an assignment inside a function, or from another module)"""
+    CTX = 'dawgie.context'
+    runtime = set()
+    for fn in prog.funcs.values():
+        for s_ in fn.own_nodes():
+            tg = s_.targets if isinstance(s_, ast.Assign) else ([s_.target] if isinstance(s_, (ast.AugAssign, ast.AnnAssign)) else [])
+            for t in tg:
+                if isinstance(t, ast.Attribute):
+                    sym = prog.resolve_in(t, fn) or ''
+                    if sym.startswith(CTX + '.'):
+                        runtime.add(sym)
+    if CTX in prog.modules:
+        # every setting is re-assigned by context.override (setattr over the parsed arguments): all module-level names
+        runtime |= {CTX + '.' + n for n in prog.modules[CTX].globals}
+    return runtime
+
+
+def def_time_defaults(ctx, rep, rid, in_scope, what, breaks):
+    """rule template: no `def` in the modules selected by in_scope(module name) has a default argument that is a call or
+    a capture of a run-time-assigned dawgie.context setting (a default is evaluated once, at import)"""
+    prog = ctx.prog
+    with rep.rule(rid, what, floor=1, breaks=breaks) as r:
+        # embedded positive example: the detector must fire on it on every run
+        probe = ast.parse('def f(a, stamp=now(), d=dawgie.context.data_dbs, k=3, n=None):\n    pass').body[0]
+        if len(_def_time_problems(probe, {'dawgie.context.data_dbs'})) != 2:
+            raise AnalysisError(f'{rid}: the embedded example of a definition-time default is no longer recognised')
+        runtime = runtime_context_settings(prog)
+        n = 0
+        for q, f in sorted(prog.funcs.items()):
+            if not in_scope(f.module.name):
+                continue
+            n += 1
+            for dv, why in _def_time_problems(f.node, runtime):
+                r.instance()
+                r.fail(f'{q}:default:{norm(dv)[:60]}', where(f, dv), f'default argument {norm(dv)[:60]} of {q} {why}: every call that relies on the default works with that stale value')
+        r.instance()
+        r.ok(f'{rid}:defaults', f'{n} function definitions checked: defaults are literals, names or attribute constants')
